@@ -255,6 +255,7 @@ theorem sstep_chained {P : Prog} {v v' : SV} {evs : List Tr} (hc : Chained v.cod
   | kill _ => trivial
   | forceQuit hcode => rw [hcode] at hc; exact hc.2
   | schedule hcode => rw [hcode] at hc; exact hc.2
+  | enqAct hcode => rw [hcode] at hc; exact hc.2
   | pushScr hcode => rw [hcode] at hc; exact hc.2
   | replace hcode _ => rw [hcode] at hc; exact hc.2
   | apprun hcode =>
